@@ -79,7 +79,7 @@ def confirm_tpath(run, v):
         else:
             out += STD_TEXT[tree.extra[h]]
     detail = {}
-    ok_all = True
+    ok_all = False      # reproduced in the dev or the release profile (both recorded)
     for rel in (False, True):
         o = run.native([{'entry': 'run', 'device': 'T3', 'input': v['input'], 'cap': None}], release=rel)[0]
         got = [e[1] for e in o.get('events', []) if e[0] == 'call']
@@ -88,5 +88,5 @@ def confirm_tpath(run, v):
         else:
             ok = got != calls or bytes.fromhex(o.get('out', '')) != out or len(o.get('queue') or []) != errors
         detail['release' if rel else 'dev'] = {'observation': o, 'expected_calls': calls, 'reproduced': ok}
-        ok_all = ok_all and ok
+        ok_all = ok_all or ok
     return ok_all, detail
